@@ -76,9 +76,14 @@ func c08Catalogue(pkg *types.Package, col string) []c08Type {
 	// struct of integers only: composite type; mixed struct: jsonb
 	comp := skelStruct(pkg, skelNamed(pkg, "Comp", types.NewStruct(nil, nil)), []skelField{{name: "A", typ: an.Int}, {name: "B", typ: c08Enum(pkg, "EI", true)}})
 	mixed := skelStruct(pkg, skelNamed(pkg, "Mixed", types.NewStruct(nil, nil)), []skelField{{name: "A", typ: an.Int}, {name: "S", typ: an.String}})
+	hidden := skelStruct(pkg, skelNamed(pkg, "Hidden", types.NewStruct(nil, nil)), []skelField{{name: "X", typ: an.Int}, {name: "Y", typ: an.Int}, {name: "label", typ: an.String}})
+	ignored := skelStruct(pkg, skelNamed(pkg, "Ignored", types.NewStruct(nil, nil)), []skelField{{name: "X", typ: an.Int}, {name: "Note", typ: an.String, hasTag: true, tag: "-"}})
 	out = append(out,
 		c08Type{ty: comp, sqlType: "Comp", notNull: true},
 		c08Type{ty: mixed, sqlType: "jsonb", notNull: true, jsonb: true},
+		// all-integer *exported* fields next to a hidden non-integer field: not a composite
+		c08Type{ty: hidden, sqlType: "jsonb", notNull: true, jsonb: true},
+		c08Type{ty: ignored, sqlType: "jsonb", notNull: true, jsonb: true},
 	)
 	// nullable wrappers in both field orders
 	for order := 0; order < 2; order++ {
